@@ -231,6 +231,67 @@ theorem rpc_end_to_end (cap : Nat) (hcap : cap > 0) (reg : Registry) (beh : Beha
   · intro hall b net rest hpend
     exact frames_roundtrip cap hcap o.frames hall b net rest hpend
 
+/-! #### a whole session: any number of calls written back to back on one connection -/
+
+/-- a call as the client's `Send` is given it (parameters optional) -/
+structure ClientCall where
+  method : Bytes
+  params : Option JVal := none
+  more : Bool := false
+  oneway : Bool := false
+  upgrade : Bool := false
+
+def ClientCall.Ok (k : ClientCall) : Prop :=
+  utf8Ok k.method = true ∧ optWf k.params = true ∧ k.params ≠ some .null ∧ optDepth k.params < maxDepth
+
+/-- the request as `Send` writes it (without the NUL) -/
+def ClientCall.wire (k : ClientCall) : Bytes := render (callObj k.method k.params k.more k.oneway k.upgrade)
+
+def ClientCall.toCallIn (k : ClientCall) : CallIn :=
+  { method := k.method, params := k.params, more := k.more, oneway := k.oneway, upgrade := k.upgrade }
+
+/-- the connection loop as a function of the calls themselves: handle them in order, stop after the first
+    handler failure (no decoding involved) -/
+def sessionSpec (reg : Registry) (beh : Behaviour) : List CallIn → ConnTrace
+  | [] => {}
+  | c :: cs =>
+    let o := handleCall reg beh c
+    if o.failed then
+      { frames := o.frames, dispatched := dispatchEntry o, handled := 1, ending := .handlerError }
+    else
+      let t := sessionSpec reg beh cs
+      { frames := o.frames ++ t.frames, dispatched := dispatchEntry o ++ t.dispatched,
+        handled := t.handled + 1, ending := t.ending }
+
+theorem ClientCall.decoded (k : ClientCall) (h : k.Ok) : decodeCall k.wire = some k.toCallIn := by
+  obtain ⟨hm, hp, hnull, hd⟩ := h
+  obtain ⟨m, p, a, b, c⟩ := k
+  cases p with
+  | none => exact call_roundtrip_no_parameters m a b c hm
+  | some v =>
+    exact call_roundtrip m v a b c hm (by simpa [optWf] using hp) (by simpa using hnull)
+      (by simpa [optDepth] using hd)
+
+/-- **A whole session**: whatever sequence of calls a client writes on a connection, the service handles exactly
+    those calls, in that order, each routed and answered as `handleCall` says, up to the first handler failure —
+    the bytes in between play no role. (With `frames_roundtrip`: every frame of the resulting trace comes back to
+    the client in order.) -/
+theorem session_end_to_end (reg : Registry) (beh : Behaviour) :
+    ∀ (ks : List ClientCall), (∀ k ∈ ks, k.Ok) →
+      connLoop reg beh (ks.map ClientCall.wire) = sessionSpec reg beh (ks.map ClientCall.toCallIn) := by
+  intro ks
+  induction ks with
+  | nil => intro _; rfl
+  | cons k t ih =>
+    intro hall
+    have hk := ClientCall.decoded k (hall k (by simp))
+    have ht := ih (fun x hx => hall x (by simp [hx]))
+    simp only [List.map_cons, connLoop, sessionSpec, hk, ht]
+
+example : (ClientCall.Ok { method := str "a.b.M", params := some (.obj .nil), more := true }) ∧
+    (ClientCall.Ok { method := str "org.varlink.service.GetInfo" }) := by
+  refine ⟨⟨by decide, by decide, by simp, by decide⟩, ⟨by decide, by decide, by simp, by decide⟩⟩
+
 /-- non-vacuity of `rpc_end_to_end`: a registered interface whose handler streams two replies and an error on a
     `more` call — the hypotheses hold and there are three frames to bring back -/
 example :
